@@ -184,6 +184,7 @@ inductive Err where
   | incompleteBody
   | unexpectedContent
   | invalidPart
+  | noSuchUpload
   | panic
   deriving DecidableEq, Repr
 
@@ -197,6 +198,7 @@ def Err.name : Err → String
   | .incompleteBody => "IncompleteBody"
   | .unexpectedContent => "UnexpectedContent"
   | .invalidPart => "InvalidPart"
+  | .noSuchUpload => "NoSuchUpload"
   | .panic => "PANIC"
 
 /-- environment of a `FileSystem` value: the CWD of the process and `self.root` -/
@@ -495,14 +497,14 @@ def plan (e : Env) (enc : Bytes → Bytes) : Op → Plan
     if part > 10000 then .fail [] .invalidArgument
     else if !hasBody then .fail [] .incompleteBody
     else match parseUuid uploadId with
-      | none => .fail [] .invalidRequest
+      | none => .fail [] .noSuchUpload           -- 38336b0: an id that is no UUID names no upload
       | some u =>
         verifyUpload e u [] fun t1 =>
         withPath (uploadPartPath e u part) t1 fun pp =>
         withPath (tmpPath e counter) t1 fun tmp => .ok (t1 ++ fileWrite tmp pp (parentPath pp))
   | .uploadPartCopy ap sb sk _ _ uploadId part counter =>
     match parseUuid uploadId with
-    | none => .fail [] .invalidRequest
+    | none => .fail [] .noSuchUpload
     | some u =>
       verifyUpload e u [] fun t1 =>
       if ap then .fail t1 .notImplemented else
@@ -513,13 +515,18 @@ def plan (e : Env) (enc : Bytes → Bytes) : Op → Plan
       let t2 := t1 ++ [rd src] ++ [rd sbp]
       withPath (tmpPath e counter) t2 fun tmp => .ok (t2 ++ fileWrite tmp pp (parentPath pp))
   | .listParts _ _ uploadId =>
-    .ok [⟨.list, .path e.root⟩, ⟨.read, .childrenPrefixed e.root (uploadPartPrefix uploadId)⟩]
+    -- 38336b0: the id is parsed and the upload record probed (`NoSuchUpload`) before the root is read
+    match parseUuid uploadId with
+    | none => .fail [] .noSuchUpload
+    | some u =>
+      withPath (uploadInfoPath e u) [] fun info =>
+      .ok [rd info, ⟨.list, .path e.root⟩, ⟨.read, .childrenPrefixed e.root (uploadPartPrefix u)⟩]
   | .completeMultipartUpload b k uploadId parts counter =>
     match parts with
     | none => .fail [] .invalidPart
     | some parts =>
       match parseUuid uploadId with
-      | none => .fail [] .invalidRequest
+      | none => .fail [] .noSuchUpload           -- 38336b0: an id that is no UUID names no upload
       | some u =>
         verifyUpload e u [] fun t1 =>
         withPath (getObjectPath e b k) t1 fun p =>
@@ -539,7 +546,7 @@ def plan (e : Env) (enc : Bytes → Bytes) : Op → Plan
           withPath (uploadInfoPath e u) t5 fun info => .ok (t5 ++ [rm info, rd p])
   | .abortMultipartUpload b k uploadId =>
     match parseUuid uploadId with
-    | none => .fail [] .invalidRequest
+    | none => .fail [] .noSuchUpload
     | some u =>
       verifyUpload e u [] fun t1 =>
       withPath (metadataPath e enc b k (some u)) t1 fun um =>
